@@ -36,3 +36,8 @@ Proof. exact counters_released. Qed.
 Theorem C14_counter_invariant_reachable : forall fx p ss,
   NoDup (map t_id (tasks (fst (init p)))) -> CInv (run_state fx (fst (init p)) ss).
 Proof. intros fx p ss Hnd. apply cinv_run; [apply cinv_init; exact Hnd|exact Hnd]. Qed.
+
+(* after the disposal of the root nothing is loading any more, whatever was pending: the flag the blocking render (and a
+   render that re-uses the root) looks at is false in the state the final disposal leaves *)
+Theorem C14_nothing_loading_after_root_disposal : forall fx st, global_loading (fst (step_end fx st)) = false.
+Proof. exact global_idle_after_end. Qed.
